@@ -237,7 +237,7 @@ func (w *vwWalker) inBubble(body func()) {
 			if over.Load() {
 				grace++
 			}
-			if grace > 100 {
+			if grace > 500 {
 				w.mu.Lock()
 				w.st.Abandoned++
 				if w.st.Abandoned >= 3 {
@@ -251,10 +251,10 @@ func (w *vwWalker) inBubble(body func()) {
 	}
 }
 
-const (
-	vwMaxLen   = 48
-	vwMaxTries = 24
-)
+const vwMaxLen = 48
+
+// attempts per transition that lies behind a choice the code makes
+var vwMaxTries = 24
 
 func (w *vwWalker) bfs() {
 	g := w.g
@@ -471,6 +471,9 @@ func vwRun(t *testing.T, fam *vwFamily) {
 	defer of.Close()
 	w := &vwWalker{t: t, fam: fam, out: bufio.NewWriterSize(of, 1<<20)}
 	w.keep, _ = strconv.Atoi(os.Getenv("VERIF_KEEP"))
+	if v, err := strconv.Atoi(os.Getenv("VERIF_TRIES")); err == nil && v > 0 {
+		vwMaxTries = v
+	}
 	defer w.out.Flush()
 	workers := runtime.NumCPU()
 	if workers > 16 {
